@@ -2,7 +2,7 @@
    Statements only; models in Ord/Model.v, proofs in Ord/Sorter.v and Ord/Proofs.v.
    [cmpm] is the model of the generated Compare (C03); cmp_le / cmp_ge / cmp_less /
    cmp_greater e t x y say that it returns a value <= 0 / >= 0 / < 0 / > 0 on (x, y). *)
-From Verif Require Import Go.Ty Go.Val Go.Compare Go.CompareSpec Ord.Sorter Ord.Model Ord.Proofs Ord.Support Ord.Total Ord.Unique.
+From Verif Require Import Go.Ty Go.Val Go.Compare Go.CompareSpec Go.Methods Ord.Sorter Ord.Model Ord.Proofs Ord.Support Ord.Total Ord.Unique Ord.Methods13.
 From Coq Require Import Permutation Sorted.
 Open Scope Z_scope.
 
@@ -165,3 +165,130 @@ Theorem C13_sort_unique_up_to_equiv : forall s1 s2 : @sorter val, sorter_ok s1 -
   Forall2 (fun a b => cmpm e t a b = Ok 0) l1 l2.
 Proof. exact sort_unique_up_to_equiv. Qed.
 Print Assumptions C13_sort_unique_up_to_equiv.
+
+(* ---------- element types with user Compare methods (Ord/Methods13.v) ----------
+   The generated Compare passes the result of a user's Compare method through unchanged: it can be
+   any integer, and whether it orders the values is up to the method.  The models [sort_list_g],
+   [min_g], [max_g], [min2_g], [max2_g] are those of Ord/Model.v over an arbitrary compare function
+   [cmp]; le_c / ge_c / ltp_c / gtp_c cmp x y say that [cmp x y] returns a value <= 0 / >= 0 / < 0 / > 0;
+   [tpo_on cmp l]: cmp is defined, sign-antisymmetric and transitive on the elements of l. *)
+
+(* Sort by ANY compare function that is a total preorder on the elements: a permutation,
+   non-decreasing under that compare function; and the model returns *)
+Theorem C13_sort_any_preorder : forall (cmp : val -> val -> res Z) (srt : @sorter val), sorter_ok srt ->
+  forall l l', tpo_on cmp l -> sort_list_g cmp srt KCompare l = Ok l' ->
+  Permutation l' l /\ StronglySorted (le_c cmp) l'.
+Proof. exact sort_g_spec. Qed.
+Print Assumptions C13_sort_any_preorder.
+
+Theorem C13_sort_any_preorder_defined : forall (cmp : val -> val -> res Z) (srt : @sorter val) l,
+  tpo_on cmp l -> exists l', sort_list_g cmp srt KCompare l = Ok l'.
+Proof. exact sort_g_defined. Qed.
+Print Assumptions C13_sort_any_preorder_defined.
+
+(* Min / Max by any such compare function: the FIRST element that no element precedes / follows *)
+Theorem C13_min_any_preorder : forall (cmp : val -> val -> res Z) loc x l sp def r, tpo_on cmp (x :: l) ->
+  min_g cmp KCompare (VSl loc (x :: l) sp) def = Ok r ->
+  (exists pre post, (x :: l = pre ++ r :: post)%list /\ (forall y, In y pre -> ltp_c cmp r y)) /\
+  (In r (x :: l) /\ forall y, In y (x :: l) -> ge_c cmp y r).
+Proof. exact min_g_spec. Qed.
+Print Assumptions C13_min_any_preorder.
+
+Theorem C13_max_any_preorder : forall (cmp : val -> val -> res Z) loc x l sp def r, tpo_on cmp (x :: l) ->
+  max_g cmp KCompare (VSl loc (x :: l) sp) def = Ok r ->
+  (exists pre post, (x :: l = pre ++ r :: post)%list /\ (forall y, In y pre -> gtp_c cmp r y)) /\
+  (In r (x :: l) /\ forall y, In y (x :: l) -> le_c cmp y r).
+Proof. exact max_g_spec. Qed.
+Print Assumptions C13_max_any_preorder.
+
+Theorem C13_minmax_default_any : forall (cmp : val -> val -> res Z) k lst def,
+  (lst = VNilS \/ exists loc sp, lst = VSl loc [] sp) ->
+  min_g cmp k lst def = Ok def /\ max_g cmp k lst def = Ok def.
+Proof. exact minmax_g_default. Qed.
+Print Assumptions C13_minmax_default_any.
+
+Theorem C13_min2_max2_any_preorder : forall (cmp : val -> val -> res Z) a b, tpo_on cmp [a; b] ->
+  (exists c, cmp a b = Ok c /\ min2_g cmp KCompare a b = Ok (if c <? 0 then a else b)
+             /\ ge_c cmp a (if c <? 0 then a else b) /\ ge_c cmp b (if c <? 0 then a else b)) /\
+  (exists c, cmp a b = Ok c /\ max2_g cmp KCompare a b = Ok (if 0 <? c then a else b)
+             /\ le_c cmp a (if 0 <? c then a else b) /\ le_c cmp b (if 0 <? c then a else b)).
+Proof. exact min2_max2_g. Qed.
+Print Assumptions C13_min2_max2_any_preorder.
+
+(* ONLY THE SIGN of the compare results matters.  Two compare functions that agree in sign (a
+   magnitude-returning one and its normalisation to -1/0/+1, [norm]) give the same Min, Max,
+   two-value results and (with the insertion sort) the same sorted list ... *)
+Theorem C13_models_sign_only : forall c1 c2 : val -> val -> res Z, sgn_agree c1 c2 -> forall k,
+  (forall lst def, min_g c1 k lst def = min_g c2 k lst def) /\
+  (forall lst def, max_g c1 k lst def = max_g c2 k lst def) /\
+  (forall a b, min2_g c1 k a b = min2_g c2 k a b) /\
+  (forall a b, max2_g c1 k a b = max2_g c2 k a b) /\
+  (forall l, sort_list_g c1 isort k l = sort_list_g c2 isort k l).
+Proof. exact models_sign_only. Qed.
+Print Assumptions C13_models_sign_only.
+
+(* ... and the specification predicates (and the hypothesis "total preorder") hold for the one
+   exactly when they hold for the other *)
+Theorem C13_specs_sign_only : forall c1 c2 : val -> val -> res Z, sgn_agree c1 c2 ->
+  (forall U, tpo_on c1 U <-> tpo_on c2 U) /\
+  (forall l l', sort_spec c1 l l' <-> sort_spec c2 l l') /\
+  (forall l r, min_spec c1 l r <-> min_spec c2 l r) /\
+  (forall l r, max_spec c1 l r <-> max_spec c2 l r).
+Proof. exact specs_sign_only. Qed.
+Print Assumptions C13_specs_sign_only.
+
+Theorem C13_norm_agrees_in_sign : forall cmp : val -> val -> res Z, sgn_agree cmp (norm cmp).
+Proof. exact norm_agree. Qed.
+Print Assumptions C13_norm_agrees_in_sign.
+
+(* for every sorter with the contract: what Sort returns when the comparator is a
+   magnitude-returning compare is sorted under every compare function with the same signs *)
+Theorem C13_sort_sign_only : forall (srt : @sorter val) (c1 c2 : val -> val -> res Z), sorter_ok srt -> sgn_agree c1 c2 ->
+  forall l l', tpo_on c1 l -> sort_list_g c1 srt KCompare l = Ok l' -> sort_spec c2 l l'.
+Proof. exact sort_g_spec_sign. Qed.
+Print Assumptions C13_sort_sign_only.
+
+(* on element types without user methods the generic models over [cmp13 e t] (the derived Compare
+   of the element type, methods included) ARE the models of the theorems above *)
+Theorem C13_method_free_models : forall e t, method_free t = true ->
+  cmp13 e t = cmpm e t /\
+  (forall srt l, sort_list_g (cmpm e t) srt (sort_kind e t) l = sort_list srt e t l) /\
+  (forall srt v, sort_model_g (cmpm e t) srt (sort_kind e t) v = sort_model srt e t v) /\
+  (forall lst def, min_g (cmpm e t) (minmax_kind e t) lst def = min_model e t lst def) /\
+  (forall lst def, max_g (cmpm e t) (minmax_kind e t) lst def = max_model e t lst def) /\
+  (forall a b, min2_g (cmpm e t) (minmax_kind e t) a b = min2_model e t a b) /\
+  (forall a b, max2_g (cmpm e t) (minmax_kind e t) a b = max2_model e t a b).
+Proof. exact method_free_models. Qed.
+Print Assumptions C13_method_free_models.
+
+(* PARTIAL: for an element type WITH user methods the specification is proved under the explicit
+   hypothesis that the derived Compare of the element type is a total preorder on the values at
+   hand.  Not proved (and false in general, [ex_not_tpo]: a map keyed by a struct whose method
+   ignores a field): that hypothesis from the type.  The evaluator decides it per input ([tpo_b]). *)
+Theorem C13_sort_with_methods_partial : forall (srt : @sorter val), sorter_ok srt -> forall e t l l',
+  tpo_on (cmp13 e t) l -> sort_list_g (cmp13 e t) srt KCompare l = Ok l' ->
+  Permutation l' l /\ StronglySorted (le_c (cmp13 e t)) l'.
+Proof. exact sort_with_methods. Qed.
+Print Assumptions C13_sort_with_methods_partial.
+
+(* the evaluator's guard on the real inputs decides the hypothesis: sound and complete *)
+Theorem C13_preorder_check_sound : forall (cmp : val -> val -> res Z) l, tpo_b cmp l = true -> tpo_on cmp l.
+Proof. exact tpo_b_sound. Qed.
+Print Assumptions C13_preorder_check_sound.
+
+Theorem C13_preorder_check_complete : forall (cmp : val -> val -> res Z) l, tpo_on cmp l -> tpo_b cmp l = true.
+Proof. exact tpo_b_complete. Qed.
+Print Assumptions C13_preorder_check_complete.
+
+(* the hypothesis holds for the harness' magnitude method (Compare = int(a.F1) - int(b.F1)) on
+   every list of values, so for a struct type whose derived Compare is that method, Sort is a
+   sorted permutation under it for every sorter with the contract *)
+Theorem C13_magnitude_method_is_preorder : forall U, (forall v, In v U -> mag_shaped v) -> tpo_on second_mag U.
+Proof. exact second_mag_tpo. Qed.
+Print Assumptions C13_magnitude_method_is_preorder.
+
+Theorem C13_sort_magnitude_struct : forall (srt : @sorter val), sorter_ok srt -> forall l l',
+  (forall v, In v l -> mag_shaped v) ->
+  sort_list_g (cmp13 [] ex_MGP) srt KCompare l = Ok l' -> sort_spec second_mag l l'.
+Proof. exact sort_MGP. Qed.
+Print Assumptions C13_sort_magnitude_struct.
